@@ -313,6 +313,33 @@ def check_orders(res):
                 res["violations"].append({"kind": "order", "order": [list(co), list(fo)],
                                           "what": f"[compartments {co} flows {fo}] equal compartmental systems serialise differently (construction order leaks into to_dict)",
                                           "class": "order:equal-but-different-dict"})
+    # compartments with several doses in every order of the dose tuple
+    from pharmpy.model import Infusion
+
+    dose_menu = [Bolus.create("AMT", admid=1), Infusion.create("AMT", admid=2, rate="R1"), Bolus.create("AMT", admid=3)]
+    for k in (2, 3):
+        for doses in itertools.permutations(dose_menu, k):
+            cb = CompartmentalSystemBuilder()
+            cen = Compartment.create("CENTRAL", doses=tuple(doses), lag_time="ALAG1")
+            cb.add_compartment(cen)
+            cb.add_flow(cen, output, Expr.symbol("K"))
+            cs = CompartmentalSystem(cb)
+            res["states"] += 1
+            res["evaluations"] += 1
+            n += 1
+            label = "doses (" + ", ".join(type(d).__name__ + str(d.admid) for d in doses) + ")"
+            for what, obj, cls in (("Compartment", cen, Compartment), ("CompartmentalSystem", cs, CompartmentalSystem)):
+                d = obj.to_dict()
+                for via, dd in (("", d), (" via JSON", json.loads(json.dumps(d)))):
+                    try:
+                        back = cls.from_dict(dd)
+                        ok = back == obj
+                    except Exception as e:
+                        ok = False
+                    if not ok:
+                        res["violations"].append({"kind": "order", "order": [label, what + via],
+                                                  "what": f"[{label}] {what}{via}: from_dict(to_dict(x)) != x",
+                                                  "class": "order:multi-dose-roundtrip" + via})
     res["construction_orders"] = n
     res["samples"].append("compartmental system DEPOT/CENTRAL/PERI built in all 144 orders")
     return res
